@@ -115,7 +115,7 @@ def case_class(ctx):
 def new_case(ctx, script, **dom_kw):
     """-> (driver, runs after construction)."""
     dom = CaseDomain(ctx.classes, script, **dom_kw)
-    d = so.Driver(ctx, case_class(ctx), dom, depth=34)
+    d = so.Driver(ctx, case_class(ctx), dom, depth=60)
     st0 = State([("self._testMethodName", ("const", "test_it")), ("self.test_it", user("test")), ("self.setUp", user("setUp")), ("self.tearDown", user("tearDown"))])
     return d, d.construct([("const", "test_it")], state=st0)
 
